@@ -16,7 +16,7 @@ LEVEL = "exploration"
 TECHNIQUE = "Hypothesis over the cross product of configuration fields; oracles = round trip (dict and JSON text), one-field metamorphic variants (hash must change), recomputed file name, differential across sub-interpreters with different PYTHONHASHSEED"
 RULE = (
     "case = JSON spec (name, grid_n, n_mazes, generator, kwargs, endpoint options, seed, recorded filters) [+ which single field to "
-    "vary]. Sub-interpreter check: the same specs hashed under PYTHONHASHSEED in {0,1,4242,random}. Non-trivial = spec with non-empty "
+    "vary, which field to edit in place after hashing]. Sub-interpreter check: the same specs hashed under PYTHONHASHSEED in {0,1,4242,random}. Non-trivial = spec with non-empty "
     "endpoint options or >= 1 recorded filter; distinct by canonical case digest."
 )
 ASSUMPTIONS = [
@@ -112,6 +112,35 @@ def check(case: dict):
         if fld != "n_mazes":
             require(v != c, f"C18:eq-ignores:{fld}", f"configs differing only in {fld} compare equal")
         labels.append(f"vary:{fld}")
+    # history: the hash follows the content when a configuration that was already hashed is edited in place
+    for fld in case.get("edit", []):
+        try:
+            vs = _variant(spec, fld)
+        except core.Discard:
+            continue
+        live = L.make_cfg(spec)
+        live.stable_hash_cfg(), live.to_fname()
+        target = L.make_cfg(vs)
+        if fld == "name":
+            live.name = target.name
+        elif fld == "grid_n":
+            live.grid_n = target.grid_n
+        elif fld == "n_mazes":
+            live.n_mazes = target.n_mazes
+        elif fld == "ctor":
+            live.maze_ctor = target.maze_ctor
+            live.maze_ctor_kwargs.clear()
+        elif fld == "kwargs":
+            live.maze_ctor_kwargs.update(target.maze_ctor_kwargs)
+        elif fld == "endpoint":
+            live.endpoint_kwargs.update(target.endpoint_kwargs)
+        elif fld == "seed":
+            live.seed = target.seed
+        elif fld == "filters":
+            live.applied_filters.append(target.applied_filters[-1])
+        require(live.stable_hash_cfg() == target.stable_hash_cfg() and live.to_fname() == target.to_fname(), f"C18:stale-hash-after-editing:{fld}",
+                f"a config hashed, then edited in place ({fld}) hashes {live.stable_hash_cfg()} / {live.to_fname()}, an equal fresh config {target.stable_hash_cfg()} / {target.to_fname()}")
+        labels.append(f"edit:{fld}")
     nt = bool(spec.get("endpoint")) or bool(spec.get("filters"))
     return {"nt": nt, "labels": labels}
 
@@ -151,6 +180,7 @@ def _case(draw, vary: bool):
     case = {"spec": spec}
     if vary:
         case["vary"] = list(FIELDS)
+        case["edit"] = list(FIELDS)
     return case
 
 
